@@ -13,7 +13,7 @@ const KINDS: [JoinKind; 4] = [JoinKind::Inner, JoinKind::Left, JoinKind::Right, 
 pub fn run(cx: &mut Ctx) {
     let o = CheckOpts { par_vs_seq: true, vs_reference: true };
     // exhaustive: all left/right inputs of <= 3 (quick 2) rows over 2 keys x 4 kinds x seq + par 1..3
-    let maxlen = cx.budget(2, 3);
+    let maxlen = size_for(cx, 2, 3);
     let mut inputs: Vec<Vec<V>> = vec![vec![]];
     let mut frontier: Vec<Vec<V>> = vec![vec![]];
     for _ in 0..maxlen {
